@@ -3,7 +3,14 @@
 Copies a confirmed seeded change (patch_k.diff, demo_k.*, meta_k.json) into /verif/seeded/<name>/ ."""
 import sys, os, json, shutil, glob
 src, k, name, caught, note = sys.argv[1:6]
+if name.endswith("-next"):
+    # next free number for this property (numbers of changes that became void are not reused)
+    pid = name[:-5]
+    used = [int(d.split("-")[1]) for d in os.listdir("/verif/seeded") if d.startswith(pid + "-")]
+    name = f"{pid}-{max(used + [0]) + 1}"
 dst = f"/verif/seeded/{name}"
+if os.path.exists(dst):
+    sys.exit(f"{dst} exists already")
 os.makedirs(dst, exist_ok=True)
 shutil.copy(f"{src}/patch_{k}.diff", f"{dst}/patch.diff")
 for f in glob.glob(f"{src}/demo_{k}*"):
